@@ -82,6 +82,8 @@ def run(ctx):
                 "labels that were laid out before / presented permuted; distinct by action sequence and label sets")
     ctx.assumptions += ["labels sharing a data position share a width (the property's proviso); results are compared as the multiset "
                         "(idealPos, width, layer, position)"]
+    ctx.model("Engine", "MCEngine_unbounded.cfg", workers=4, heap="4g",
+              label="call histories of EVERY length: under the view that drops the history variable the reachable graph is finite (Pure, ReuseEqualsFresh)")
     ctx.model("Engine", "NegEngine_cachedmeasure.cfg", workers=2, expect_violation="Pure",
               label="negative self-test: something derived from a label's old width or position and kept across layouts makes a layout after re-measuring impure")
     ctx.model("Engine", "NegEngine_nostubremoval.cfg", workers=2, expect_violation="Pure",
